@@ -505,11 +505,11 @@ Proof.
       destruct o3 as [[]|]; [|crashS S23].
       pose proof (rdr_at_stable x _ _ _ _ Rx2 (proj2 S3)) as Rx3.
       destruct (go_sliceBounds from to (Z.of_nat len)) as [[ok f] t]. destruct ok; [|doneS S23].
-      eapply (new_frozen_then _ tg3 h3); eauto; [exact (proj1 S3) | exact Rx3 | |].
-      * exact He1.
-      * intros y tg4 h4 S4 Ty Gy He4. cbv beta in He4. rewrite exec_ret in He4. inversion He4; subst.
-        exists tg4. split; [|cbn; split; eauto].
-        eapply step_trans; [exact S23 | exact S4].
+      assert (X : exists tg', Step tg3 h3 tg' h' /\ match out with Done a => pout_ok a tg' h' | Crashed => True end).
+      { refine (new_frozen_then _ tg3 h3 ar _ _ out h' pout_ok (proj1 S3) _ He1 _); [exact Rx3|].
+        intros y tg4 h4 S4 Ty Gy He4. cbv beta in He4. rewrite exec_ret in He4. inversion He4; subst.
+        exists tg4. split; [apply step_refl; exact (proj1 S4) | cbn; split; eauto]. }
+      destruct X as (tg5 & S5 & Ho). exists tg5. split; [eapply step_trans; [exact S23 | exact S5] | exact Ho].
     + (* streamBytes *)
       assert (Rx : rdr_at rd tg h) by exact HP.
       destruct (cf_stream_shared cf).
@@ -523,11 +523,11 @@ Proof.
         destruct o3 as [[]|]; [|crashS S23].
         pose proof (rdr_at_stable rd _ _ _ _ Rx2 (proj2 S3)) as Rx3.
         destruct (go_sliceBounds from to (Z.of_nat len)) as [[ok f] t]. destruct ok; [|doneS S23].
-        eapply (new_frozen_then _ tg3 h3); eauto; [exact (proj1 S3) | exact Rx3 | |].
-        -- exact He.
-        -- intros y tg4 h4 S4 Ty Gy He4. cbv beta in He4. rewrite exec_ret in He4. inversion He4; subst.
-           exists tg4. split; [|cbn; split; eauto].
-           eapply step_trans; [exact S23 | exact S4].
+        assert (X : exists tg', Step tg3 h3 tg' h' /\ match out with Done a => pout_ok a tg' h' | Crashed => True end).
+        { refine (new_frozen_then _ tg3 h3 ar _ _ out h' pout_ok (proj1 S3) _ He _); [exact Rx3|].
+          intros y tg4 h4 S4 Ty Gy He4. cbv beta in He4. rewrite exec_ret in He4. inversion He4; subst.
+          exists tg4. split; [apply step_refl; exact (proj1 S4) | cbn; split; eauto]. }
+        destruct X as (tg5 & S5 & Ho). exists tg5. split; [eapply step_trans; [exact S23 | exact S5] | exact Ho].
       * rewrite exec_bind in He.
         destruct (exec ar (rd_content rd_fuel rd) h) as [[data|] h0] eqn:Ec;
           pose proof (exec_wfree _ _ (wfree_rd_content rd_fuel rd) _ _ _ _ Ec); subst h0; [|crashS S0].
@@ -541,4 +541,133 @@ Proof.
       eapply new_frozen_then; eauto; [exact I|].
       intros y tg4 h4 S4 Ty Gy He4. cbv beta in He4. rewrite exec_ret in He4. inversion He4; subst.
       exists tg4. split; [apply step_refl; exact (proj1 S4)|]. cbn. unfold bslice_ok; cbn. split; eauto.
+Qed.
+
+(* ------------------------------------------------------------------ one API call *)
+
+Definition prim_pre (p : prim) : assertion := fun tg h =>
+  Forall (fun hd => handle_ok hd tg h) (prim_operands p) /\ legal_heap h p = true.
+
+Lemma slice_handle_ok : forall tg h s sl, handle_ok s tg h -> is_slice_handle s = Some sl -> bslice_ok tg h sl.
+Proof.
+  intros tg h s sl H E. destruct s; cbn in E; try discriminate.
+  - destruct r; try discriminate. inversion E; subst. exact H.
+  - inversion E; subst. exact H.
+Qed.
+
+Lemma legal_builder : forall h a o p,
+  (match o with
+   | BBeginMap hint => p = PBeginMap (HBuilder a) hint
+   | BBeginList hint => p = PBeginList (HBuilder a) hint
+   | BAssign v => p = PAssign (HBuilder a) v
+   | BAssignBytes _ => exists s, p = PAssignBytes (HBuilder a) s
+   | BAssignNode _ => exists n, p = PAssignNode (HBuilder a) n
+   end) ->
+  legal_heap h p = true -> forall v, hget h a = Some (CPtr v) -> builder_legal v o.
+Proof.
+  intros h a o p Hp Hl v Gv. unfold legal_heap, cell_val in Hl.
+  destruct o.
+  - subst p. rewrite Gv in Hl. destruct v; cbn; auto.
+    + intros E. rewrite E in Hl. discriminate.
+    + apply andb_true_iff in Hl. destruct Hl as [H1 H2]. split; intros E; rewrite E in *; discriminate.
+  - subst p. rewrite Gv in Hl. destruct v; cbn; auto.
+    + intros E. rewrite E in Hl. discriminate.
+    + apply andb_true_iff in Hl. destruct Hl as [H1 H2]. split; intros E; rewrite E in *; discriminate.
+  - subst p. rewrite Gv in Hl. destruct v; cbn; auto; destruct done; [discriminate | reflexivity].
+  - destruct Hp as [s0 ->]. rewrite Gv in Hl. destruct v; cbn; auto; destruct done; [discriminate | reflexivity].
+  - destruct Hp as [n0 ->]. rewrite Gv in Hl. destruct v; cbn; auto; destruct done; [discriminate | reflexivity].
+Qed.
+
+Definition prim_post (p : prim) (o : pout) : assertion := fun tg h =>
+  returns_caps p = true -> pout_ok o tg h.
+
+Lemma triple_post_any : forall A (P : assertion) (p : mprog A) (Q : A -> assertion),
+  triple P p tt_post -> (forall a tg h, Q a tg h) -> triple P p Q.
+Proof. intros * T HQ. eapply triple_conseq; [exact T | auto | intros; apply HQ]. Qed.
+
+Lemma t_prim_prog : forall cf p, triple (prim_pre p) (prim_prog cf p) (prim_post p).
+Proof.
+  intros cf p. destruct p; cbn [prim_prog].
+  - eapply triple_conseq; [apply t_new_builder | intros; exact I | intros a tg h _ _ F; discriminate F].
+  - (* BeginMap *)
+    apply triple_post_any; [|intros a tg hh F; discriminate F].
+    eapply triple_conseq; [apply (t_asm_op cf h (BBeginMap hint)) | | auto].
+    intros tg hp HI [Hop Hl]. destruct h; cbn; auto. split; [exact I|].
+    eapply legal_builder; eauto; cbn; eauto.
+  - (* BeginList *)
+    apply triple_post_any; [|intros a tg hh F; discriminate F].
+    eapply triple_conseq; [apply (t_asm_op cf h (BBeginList hint)) | | auto].
+    intros tg hp HI [Hop Hl]. destruct h; cbn; auto. split; [exact I|].
+    eapply legal_builder; eauto; cbn; eauto.
+  - (* AssembleEntry *)
+    apply triple_post_any; [|intros a tg hh F; discriminate F].
+    destruct h; try apply triple_crash. apply triple_pre_true. apply t_map_assemble_entry.
+  - apply triple_post_any; [|intros a tg hh F; discriminate F].
+    destruct h; try apply triple_crash. apply triple_pre_true. apply t_map_assemble_key.
+  - apply triple_post_any; [|intros a tg hh F; discriminate F].
+    destruct h; try apply triple_crash; apply triple_pre_true; [apply t_map_assemble_value | apply t_list_assemble_value].
+  - (* Assign *)
+    apply triple_post_any; [|intros a tg hh F; discriminate F].
+    eapply triple_conseq; [apply (t_asm_op cf h (BAssign v)) | | auto].
+    intros tg hp HI [Hop Hl]. destruct h; cbn; auto. split; [exact I|].
+    eapply legal_builder; eauto; cbn; eauto.
+  - (* AssignBytes *)
+    apply triple_post_any; [|intros a tg hh F; discriminate F].
+    destruct (is_slice_handle s) as [sl|] eqn:Es; [|apply triple_crash].
+    eapply triple_conseq; [apply (t_asm_op cf h (BAssignBytes sl)) | | auto].
+    intros tg hp HI [Hop Hl]. cbn in Hop. inversion Hop as [|? ? H1 H2]; subst. inversion H2 as [|? ? H3 _]; subst.
+    pose proof (slice_handle_ok _ _ _ _ H3 Es) as Hsl.
+    destruct h; cbn; auto. split; [exact Hsl|].
+    eapply legal_builder; eauto; cbn; eauto.
+  - (* AssignNode *)
+    apply triple_post_any; [|intros a tg hh F; discriminate F].
+    destruct n; try apply triple_crash.
+    eapply triple_conseq; [apply (t_asm_op cf h (BAssignNode r)) | | auto].
+    intros tg hp HI [Hop Hl]. cbn in Hop. inversion Hop as [|? ? H1 H2]; subst. inversion H2 as [|? ? H3 _]; subst.
+    destruct h; cbn; auto. split; [exact H3|].
+    eapply legal_builder; eauto; cbn; eauto.
+  - (* Finish *)
+    apply triple_post_any; [|intros a tg hh F; discriminate F].
+    destruct h; try apply triple_crash; apply triple_pre_true; [apply t_map_finish | apply t_list_finish].
+  - (* Build *)
+    destruct h; try apply triple_crash.
+    eapply triple_conseq; [apply (t_builder_build a) | | intros o tg hp _ H _; exact H].
+    intros tg hp HI [Hop Hl] k w done Ga. unfold legal_heap, cell_val in Hl. rewrite Ga in Hl. exact Hl.
+  - (* Reset *)
+    apply triple_post_any; [|intros a tg hh F; discriminate F].
+    destruct h; try apply triple_crash. apply triple_pre_true. apply t_builder_reset.
+  - (* Read *)
+    destruct n; try apply triple_crash.
+    eapply triple_bind with (Q1 := ares_ok).
+    + eapply triple_conseq; [apply (t_acc_prog cf r a) | | auto].
+      intros tg hp HI [Hop Hl]. cbn in Hop. inversion Hop; subst. assumption.
+    + intros x. apply triple_ret. intros tg hp H _. exact H.
+  - (* NewSlice *)
+    intros tg h ar o h' HI _ He.
+    eapply new_frozen_then; eauto; [exact I|].
+    intros y tg4 h4 S4 Ty Gy He4. cbv beta in He4. rewrite exec_ret in He4. inversion He4; subst.
+    exists tg4. split; [apply step_refl; exact (proj1 S4)|]. intros _. cbn. unfold bslice_ok; cbn. split; eauto.
+  - (* NewBytesNode *)
+    destruct (is_slice_handle s) as [sl|] eqn:Es; [|apply triple_crash].
+    apply triple_ret. intros tg hp [Hop Hl] _. cbn in Hop. inversion Hop; subst.
+    cbn. eapply slice_handle_ok; eauto.
+  - (* NewStreamNode *)
+    destruct (is_slice_handle s) as [sl|] eqn:Es; [|apply triple_crash].
+    intros tg h ar o h' HI [Hop Hl] He. cbn in Hop. inversion Hop; subst.
+    pose proof (slice_handle_ok _ _ _ _ H1 Es) as Hsl.
+    eapply new_frozen_then; eauto; [exact Hsl|].
+    intros y tg4 h4 S4 Ty Gy He4. cbv beta in He4. rewrite exec_ret in He4. inversion He4; subst.
+    exists tg4. split; [apply step_refl; exact (proj1 S4)|]. intros _. cbn. split; eauto.
+  - (* NewScalarNode *)
+    eapply triple_bind with (Q1 := fun r => a_fref r).
+    + apply triple_pre_true. apply t_sval_node.
+    + intros r. apply triple_ret. intros tg hp H _. exact H.
+  - (* Foreign *)
+    apply triple_ret. intros tg hp _ _. exact I.
+  - (* MatchSubset *)
+    destruct n; try apply triple_crash.
+    eapply triple_conseq; [apply (t_match_subset cf r from to) | | intros o tg hp _ H _; exact H].
+    intros tg hp HI [Hop Hl]. cbn in Hop. inversion Hop; subst. assumption.
+  - (* CallerWrite: never legal *)
+    intros tg h ar o h' HI [_ Hl]. discriminate Hl.
 Qed.
